@@ -2,6 +2,8 @@
 package mon
 
 import (
+	"strings"
+
 	"verif/harness/internal/run"
 
 	"github.com/itchyny/gojq"
@@ -31,4 +33,15 @@ func evalVars(src string, input any, names []string, vals []any, budget int64) r
 		return run.Trace{End: run.EndError, Err: res.Err}
 	}
 	return run.RunCode(res.Code, input, vals, budget, 0)
+}
+
+// nondeterministic reports whether a program may depend on the clock, the
+// local time zone or an input iterator (excluded by the properties).
+func nondeterministic(src string) bool {
+	for _, w := range []string{"now", "local", "input", "$__prog"} {
+		if strings.Contains(src, w) {
+			return true
+		}
+	}
+	return false
 }
